@@ -410,3 +410,26 @@ PROPS["C08"] = dict(
                 "exclusion per publisher, the concurrency bound, exactly-once reporting and no lost announcement at a logically detected quiescent point."),
     level_note="Trusted: the verif taps are placed where DESIGN.md says and record with one logical clock; the race detector's reports are recorded as diagnostics only.",
 )
+
+PROPS["C14"] = dict(
+    race=True,
+    shards={"quick": 8, "thorough": 16},
+    gomaxprocs=6,
+    level="exploration",
+    design_ref="DESIGN.md §2 C14",
+    technique="offline checker over the emission/forwarding log (verif taps) and every listener's received sequence: MUST/MAY sets from logical timestamps, order, duplicates, counts, closure; hang rule for 'never delays'",
+    rule=("1..3 publishers syncing concurrently (explicit syncs with queried head, announce-triggered syncs, and announce-triggered syncs that "
+          "fail on an injected 500) for 3..8 rounds, or one publisher for 75..115 rounds with a listener that does not read; 0..5 listeners with "
+          "behaviours {fast, slow, stalled until the end, cancel after n events, cancel then read the backlog, cancel immediately, register "
+          "late}; seeded delays at the distributor / emission / registration taps; at the end either Close with stalled readers still holding "
+          "their backlog, or every listener cancelled. Ground truth = emission and forwarding events from the taps. Per listener: MUST receive every "
+          "event whose emission began after registration returned and that was forwarded before cancel was called; may receive those racing "
+          "with registration/cancellation; nothing twice, nothing never emitted, per publisher in emission order, Count equals the hook calls of "
+          "that sync; channel closed after the backlog. All sync workers must finish while stalled listeners are not reading (hang rule). "
+          "distinct_nontrivial = distinct run configurations."),
+    floors={"quick": {"must_deliveries_checked": 600, "emitted_events": 500, "long_runs_with_stalled_listener": 5, "listener_stalled": 10, "listener_cancel-then-read": 10, "listener_cancel-after-n": 10}},
+    watchdog_s={"quick": 900, "thorough": 7200},
+    level_text=("Exploration over schedules: each run's listeners are compared with the emission log; delivery obligations are derived from logical "
+                "timestamps so that only what the statement promises is demanded."),
+    level_note="Trusted: tap placement; events in the one-slot hand-off when cancel is called are treated as MAY (the statement does not pin 'not yet cancelled' to call or effect time).",
+)
